@@ -15,6 +15,12 @@ events, the few attributes that matter (Observe option values, is_multicast) car
 compares what happened (events, final table contents, return value) with what the property demands.  A failing
 world is a concrete counterexample of the necessary condition, so a VIOLATION is never a matter of spelling.
 
+The evaluator runs on the sources as written (`raw_program`), not on the engine's canonical form: every call creates
+a fresh frame, every lambda / nested def captures the frame it is created in, defaults and functools.partial
+arguments are evaluated where the callable is made -- so closure factories, partials, default-argument binding, bound
+methods and small callable classes bind per callable, and a lambda / def that refers to a loop or comprehension
+variable binds late, exactly as in Python.
+
 Vocabulary: the statement and expression forms below.  Everything else raises AnalysisError (exit 2) -- the
 evaluator never guesses.  Values it knows nothing about (results of opaque calls, unset attributes) are *unknown
 individuals*: a branch on one is explored both ways (`Explorer`), consistently per fact.
@@ -99,6 +105,18 @@ class Partial:
         return "partial(%r, %r)" % (self.func, self.args)
 
 
+class OpCaller:
+    """operator.methodcaller / attrgetter / itemgetter objects."""
+
+    def __init__(self, kind, args, kwargs):
+        self.kind = kind
+        self.args = list(args)
+        self.kwargs = dict(kwargs)
+
+    def __repr__(self):
+        return "%s%r" % (self.kind, tuple(self.args))
+
+
 class BoundBuiltin:
     def __init__(self, recv, name):
         self.recv = recv
@@ -180,7 +198,9 @@ class Event:
 
 _BUILTINS = {"isinstance", "len", "list", "tuple", "dict", "str", "repr", "bool", "enumerate", "zip", "any", "all", "reversed",
              "range", "print", "callable", "sorted", "iter", "id", "hash", "bytes", "int", "getattr", "hasattr", "map", "filter", "sum", "min", "max", "set", "frozenset", "type", "divmod", "abs"}
-_EXTERNAL = {"functools.partial": "partial", "contextlib.suppress": "suppress", "itertools.chain": "chain"}
+_EXTERNAL = {"functools.partial": "partial", "contextlib.suppress": "suppress", "itertools.chain": "chain",
+             "operator.methodcaller": "methodcaller", "operator.attrgetter": "attrgetter", "operator.itemgetter": "itemgetter",
+             "itertools.starmap": "starmap"}
 _DICT_METHODS = {"get", "pop", "setdefault", "items", "keys", "values", "update", "clear", "copy", "popitem"}
 _LIST_METHODS = {"append", "extend", "insert", "pop", "remove", "clear", "copy", "index", "count", "reverse"}
 _NATIVE_METHOD_TYPES = (int, str, bytes, tuple)
@@ -202,6 +222,34 @@ def baseline_functions():
     return _baseline_cache
 
 
+def raw_program(prog):
+    """The analysed sources AS WRITTEN (same root, same in-memory overrides), without the engine's canonicalisation
+    (helper expansion + copy propagation, coaplint/inline.py).
+
+    The small-scope evaluator is an interpreter: it gives every spelling its Python meaning by itself (helpers are
+    called, locals are looked up, closures capture frames), so it has no use for a canonical form -- and the
+    canonical form is not exact where *binding time* matters: expanding `def failing(request): return lambda:
+    request.add_exception(e)` at `[failing(request) for ... in ...]` substitutes the argument into the body of the
+    returned lambda, `[lambda: request.add_exception(e) for ...]`, which turns a parameter bound per call into a
+    reference to the comprehension variable (every stopper would then act on the last request).  The evaluator
+    therefore always runs on the unexpanded trees; each call creates a fresh frame, exactly as in Python."""
+    cached = prog.__dict__.get("_c02_raw_program")
+    if cached is not None:
+        return cached
+    import os
+    from ..model import Program
+    if os.environ.get("COAPLINT_NO_INLINE"):
+        raw = prog
+    else:
+        os.environ["COAPLINT_NO_INLINE"] = "1"
+        try:
+            raw = Program(prog.root, overrides=prog.overrides)
+        finally:
+            del os.environ["COAPLINT_NO_INLINE"]
+    prog.__dict__["_c02_raw_program"] = raw
+    return raw
+
+
 class Interp:
     def __init__(self, prog, script=(), opaque_call=None, isa=None, max_steps=20000):
         """script: prescribed outcomes of the first undecided facts (Explorer); opaque_call(interp, callee, args, kwargs, node)
@@ -218,6 +266,7 @@ class Interp:
         self.depth = 0
         self.counter = 0
         self.self_obj = None
+        self.blind = []  # calls of / on values the world does not model
 
     # -- nondeterminism -------------------------------------------------------------------
     def decide(self, key):
@@ -401,11 +450,18 @@ class Interp:
             if v.cls is not None and v.cls in self.prog.classes:
                 fi = self.prog.lookup_method(v.cls, name)
                 if fi is not None and fi.qn not in baseline_functions():
+                    if {chain(d) for d in fi.node.decorator_list} <= {"property", "functools.cached_property", "cached_property"} and fi.node.decorator_list:
+                        # a read-only view somebody introduced (`@property def _table(self): return self.outgoing_requests`)
+                        return self.call_func(Func(fi.node, fi.module, bound=[v], qn=fi.qn), [], {}, node)
                     return self.bind_method(fi, v)
                 if fi is None:
                     e, ci = self.prog.class_attr(v.cls, name)
                     if e is not None:
                         return self.ev(e, Frame(ci.module))
+            if v.cls is None and v.known:
+                fi = self.unique_new_method(name)
+                if fi is not None:
+                    return self.bind_method(fi, v)
             child = Obj(v.name + "." + name, known=False, parent=v, attr=name)
             v.attrs[name] = child
             return child
@@ -429,9 +485,49 @@ class Interp:
                 if e is not None:
                     return self.ev(e, Frame(ci.module))
             self.refuse("attribute %s of class %s" % (name, v.qn), node)
+        if isinstance(v, Builtin) and (v.name, name) == ("chain", "from_iterable"):
+            return Builtin("chain_from_iterable")
         if isinstance(v, _NATIVE_METHOD_TYPES) and not isinstance(v, bool) and hasattr(type(v), name) and not name.startswith("__"):
             return NativeMethod(v, name)
         self.refuse("attribute %s of %r" % (name, v), node)
+
+    def unique_new_method(self, name):
+        """A method that is not part of the confirmed tree (a helper somebody added to Pipe, Message, ...) called on
+        an individual of the world whose class the world does not fix: when exactly one class of the package
+        defines a method of that name and no function of the confirmed tree bears the name, the call can only mean
+        that helper, and it is evaluated on the individual (same resolution as the engine's helper expansion)."""
+        cache = self.prog.__dict__.setdefault("_c02_unique_new", {})
+        if name not in cache:
+            base = baseline_functions()
+            cands = [fi for fi in self.prog.funcs.values() if fi.cls is not None and fi.name == name and fi.qn not in base]
+            taken = any(q.rsplit(".", 1)[-1] == name for q in base)
+            cache[name] = cands[0] if len(cands) == 1 and not taken and not name.startswith("__") else None
+        return cache[name]
+
+    _PLAIN_DUNDERS = {"__init__", "__call__", "__repr__", "__str__"}
+
+    def is_new_plain_class(self, qn):
+        ci = self.prog.classes.get(qn)
+        if ci is None or self.prog.is_subclass(qn, "BaseException"):
+            return False
+        cache = self.prog.__dict__.setdefault("_c02_plain_class", {})
+        if qn not in cache:
+            base = baseline_functions()
+            node = ci.node
+            ok = not node.decorator_list and not node.keywords and all(isinstance(b, ast.Name) and b.id == "object" for b in node.bases)
+            ok = ok and not any(q.startswith(qn + ".") for q in base)
+            for st in node.body:
+                if isinstance(st, ast.FunctionDef):
+                    if st.decorator_list or (st.name.startswith("__") and st.name.endswith("__") and st.name not in self._PLAIN_DUNDERS):
+                        ok = False
+                elif isinstance(st, (ast.Assign, ast.AnnAssign)):
+                    names = [t.id for t in (st.targets if isinstance(st, ast.Assign) else [st.target]) if isinstance(t, ast.Name)]
+                    if any(n.startswith("__") and n != "__slots__" for n in names):
+                        ok = False
+                elif not (isinstance(st, ast.Pass) or (isinstance(st, ast.Expr) and isinstance(st.value, ast.Constant))):
+                    ok = False
+            cache[qn] = ok
+        return cache[qn]
 
     def bind_method(self, fi, recv, cls=None):
         decos = {chain(d) for d in fi.node.decorator_list}
@@ -739,6 +835,21 @@ class Interp:
             return self.call(f.func, f.args + list(args), kw, node)
         if isinstance(f, BoundBuiltin):
             return self.call_container(f, args, kwargs, node)
+        if isinstance(f, OpCaller):
+            if len(args) != 1 or kwargs:
+                raise Raised(self.new_exc("TypeError"), node)
+            if f.kind == "methodcaller":
+                return self.call(self.getattr(args[0], f.args[0], node), f.args[1:], f.kwargs, node)
+            if f.kind == "attrgetter":
+                def dotted(path):
+                    v = args[0]
+                    for part in path.split("."):
+                        v = self.getattr(v, part, node)
+                    return v
+                vals = [dotted(a) for a in f.args]
+            else:
+                vals = [self.subscript(args[0], a, node) for a in f.args]
+            return vals[0] if len(vals) == 1 else tuple(vals)
         if isinstance(f, NativeMethod):
             if all(isinstance(a, NATIVE) or (isinstance(a, tuple) and all(isinstance(x, NATIVE) for x in a)) for a in list(args) + list(kwargs.values())):
                 try:
@@ -750,6 +861,24 @@ class Interp:
             self.refuse("native method %s on non-constant arguments" % f.name, node)
         if isinstance(f, Builtin):
             return self.call_builtin(f.name, args, kwargs, node)
+        if isinstance(f, ClassRef) and self.is_new_plain_class(f.qn):
+            # a class that is not part of the confirmed tree and has nothing but plain methods (a callable object
+            # instead of a closure, a small holder): instances are individuals with identity semantics, __init__ and
+            # the methods are evaluated like any other helper
+            o = self.fresh("new:" + f.qn, known=True, cls=f.qn)
+            o.evaluated = True
+            self.events.append(Event("new", cls=f.qn, obj=o, args=list(args), kwargs=kwargs, node=node, evaluated=True))
+            init = self.prog.lookup_method(f.qn, "__init__")
+            if init is not None:
+                self.call_func(Func(init.node, init.module, bound=[o], qn=init.qn), list(args), kwargs, node)
+            elif args or kwargs:
+                raise Raised(self.new_exc("TypeError"), node)
+            return o
+        if isinstance(f, Obj) and getattr(f, "evaluated", False):
+            fi = self.prog.lookup_method(f.cls, "__call__")
+            if fi is None:
+                raise Raised(self.new_exc("TypeError"), node)
+            return self.call_func(Func(fi.node, fi.module, bound=[f], qn=fi.qn), list(args), kwargs, node)
         if isinstance(f, ClassRef):
             o = self.fresh("new:" + f.qn, known=True, cls=f.qn)
             o.attrs["args"] = tuple(args)
@@ -764,6 +893,13 @@ class Interp:
             if self.opaque_call is not None:
                 r = self.opaque_call(self, f, args, kwargs, node)
             if r is NotImplemented:
+                root = f
+                while root.parent is not None:
+                    root = root.parent
+                if not root.known:
+                    # something the world knows nothing about (the result of an opaque call, ...) is *called*: whatever
+                    # that does is not modelled, so a refutation obtained on this run is not a counterexample
+                    self.blind.append(f.name)
                 r = self.fresh("result of %s" % f.name)
             ev.result = r
             return r
@@ -922,6 +1058,10 @@ class Interp:
         n = len(args)
         if name == "partial" and n >= 1:
             return Partial(args[0], args[1:], kwargs)
+        if name == "methodcaller" and n >= 1 and isinstance(args[0], str):
+            return OpCaller(name, args, kwargs)
+        if name in ("attrgetter", "itemgetter") and n >= 1 and not kwargs and (name == "itemgetter" or all(isinstance(a, str) for a in args)):
+            return OpCaller(name, args, kwargs)
         if kwargs and name not in ("print", "dict"):
             self.refuse("keyword arguments to %s" % name, node)
         if name == "isinstance" and n == 2:
@@ -963,6 +1103,13 @@ class Interp:
             for a in args:
                 out.extend(self.tolist(a, node))
             return VList(out)
+        if name == "chain_from_iterable" and n == 1:
+            out = []
+            for a in self.tolist(args[0], node):
+                out.extend(self.tolist(a, node))
+            return VList(out)
+        if name == "starmap" and n == 2:
+            return VList(self.call(args[0], self.tolist(x, node), {}, node) for x in self.tolist(args[1], node))
         if name == "any" and n == 1:
             return any(self.truth(x) for x in self.tolist(args[0], node))
         if name == "all" and n == 1:
@@ -979,7 +1126,7 @@ class Interp:
         if name == "print":
             return None
         if name == "callable" and n == 1:
-            if isinstance(args[0], (Func, Partial, BoundBuiltin, Builtin, ClassRef, NativeMethod)):
+            if isinstance(args[0], (Func, Partial, BoundBuiltin, Builtin, ClassRef, NativeMethod, OpCaller)):
                 return True
             if isinstance(args[0], NATIVE) or isinstance(args[0], (tuple, VList, VDict)):
                 return False
